@@ -198,6 +198,7 @@ def grid_accessors(chk):
     chk.ob("G1-attribute-defined", mod.cls("Grid"), "all self.X reads of Grid", not reads,
            f"{len(defined)} attributes defined; every read attribute has a definition" if not reads else
            f"{len(seen)} undefined attribute read(s)", file=U.GRID, func="Grid", nontrivial=False)
+    derived_state(chk)
     # getGlobalIndices: local index of axis i + start of axis i, stored at the dimension of axis i
     fn = chk.func(U.GRID, "Grid.getGlobalIndices")
     t = src(fn).replace(" ", "").replace("\n", ";")
@@ -212,6 +213,25 @@ def grid_accessors(chk):
     chk.ob("C-sort", fn, "range(starts[i], ends[i])", ok, "global indices of the local block along axis i" if ok else
            "global index range is not [starts[i], ends[i])", file=U.GRID, func="Grid.getGlobalIdxVals")
     return n_obs
+
+
+def derived_state(chk):
+    """G-derived-state: whatever Grid stores that was computed from self._layout is refreshed wherever self._layout is rebound"""
+    cls = chk.mod(U.GRID).cls("Grid")
+    derived, missing = lints.derived_state_refresh(cls, "_layout")
+    if "_f" not in derived:
+        raise AnalysisError("C02/C04: the data view self._f is no longer recognised as derived from self._layout")
+    for meth, node, a in missing:
+        dn, dm = derived[a]
+        chk.ob("G4-layout-derived-state", node, f"self.{a} refreshed in Grid.{meth.name}", False,
+               f"Grid.{meth.name} rebinds self._layout but leaves `self.{a}` (filled from self._layout in Grid.{dm}, line {dn.lineno}) "
+               "as it was: afterwards the accessors answer for the previous layout", file=U.GRID, func=f"Grid.{meth.name}")
+    rebinders = sorted({m.name for m in cls.body if isinstance(m, ast.FunctionDef) and
+                        any(isinstance(n, ast.Assign) and any(src(t) == "self._layout" for t in n.targets) for n in ast.walk(m))})
+    chk.ob("G4-layout-derived-state", cls, "every layout-derived attribute refreshed by every method that rebinds self._layout", not missing,
+           f"derived attributes {sorted(derived)}; methods rebinding the layout {rebinders}", file=U.GRID, func="Grid", nontrivial=False)
+    if len(rebinders) < 3:
+        raise AnalysisError(f"C02/C04: expected __init__, setLayout and restoreGridValues to rebind self._layout, found {rebinders}")
 
 
 def run(chk):
